@@ -111,14 +111,15 @@ def k2_results(facts, tier):
     with open(tmp, "wb") as fh:
         pickle.dump(out, fh)
     os.replace(tmp, path)
-    # prune old caches
-    for f in os.listdir(CACHE):
-        if f.startswith("k2-") and f.endswith(".pkl") and facts.hash not in f:
-            try:
-                if time.time() - os.path.getmtime(os.path.join(CACHE, f)) > 3600:
-                    os.remove(os.path.join(CACHE, f))
-            except OSError:
-                pass
+    # prune old caches: keep the newest few (disk is limited; a seeded-change sweep creates one per scratch tree)
+    try:
+        olds = sorted((f for f in os.listdir(CACHE) if f.startswith("k2-") and f.endswith(".pkl")),
+                      key=lambda f: os.path.getmtime(os.path.join(CACHE, f)), reverse=True)
+        for f in olds[int(os.environ.get("SQ_KEEP_K2", "6")):]:
+            if os.path.join(CACHE, f) != path:
+                os.remove(os.path.join(CACHE, f))
+    except OSError:
+        pass
     return out
 
 
